@@ -598,6 +598,9 @@ class Interp:
         m = getattr(self, "st_" + type(s).__name__, None)
         if m is None:
             raise Unsupported(f"statement {type(s).__name__}", s)
+        hb = self.hooks.get("before_stmt")
+        if hb:
+            hb(self.ctx, self, s, env)
         m(s, env)
         h = self.hooks.get("after_stmt")
         if h:
@@ -1217,6 +1220,16 @@ class Interp:
             if type(a) != type(b) or len(a) != len(b):
                 return False
             return And(*[self.equal(x, y, node) for x, y in zip(a, b)])
+        if isinstance(a, dict) or isinstance(b, dict):
+            # dict == dict: same key set and equal values (order is irrelevant); a dict never equals a non-dict (records aside)
+            if isinstance(a, dict) and isinstance(b, dict):
+                if any(not is_concrete(k) for k in list(a) + list(b)):
+                    raise Unsupported("== on dicts with symbolic keys", node)
+                if set(a) != set(b):
+                    return False
+                return And(*[self.equal(a[k], b[k], node) for k in a])
+            if not isinstance(a, Rec) and not isinstance(b, Rec):
+                return False
         if isinstance(a, Rec) or isinstance(b, Rec):
             r = a if isinstance(a, Rec) else b
             o = b if r is a else a
